@@ -13,5 +13,5 @@ else
   case "$PATCH" in /*) ;; *) PATCH="$(pwd)/$PATCH";; esac
   (cd "$D" && patch -p1 -s < "$PATCH") || { echo "patch failed"; exit 3; }
 fi
-VERIF_REPO="$D" /verif/bin/check "$@" | tail -4
+VERIF_EVIDENCE_DIR="$D/evidence" VERIF_REPO="$D" /verif/bin/check "$@" | tail -4
 echo "exit=${PIPESTATUS[0]}"
